@@ -41,7 +41,7 @@ def check(ctx, recs):
 
 def run(ctx):
     games = [(gen_games.FIG55, gen_games.FIG55_META)] + sc.corpus_games() + gen_games.pattern_games(3)
-    games += gen_games.mixed_games(ctx.rng, 250 if ctx.quick else 4000, 3, 9, styles=("stopping", "exact", "stopping"))
+    games += gen_games.mixed_games(ctx.rng, 250 if ctx.quick else 4000, 3, 9, styles=("stopping", "exact", "ties"))
     # inclusion is claimed for ALL well-formed games: also make some player state a (non-absorbing) final state
     extra = []
     for g, m in games[8:]:
